@@ -2805,6 +2805,12 @@ ws_str_recv(void *arg, nng_aio *aio)
 	if (nni_list_first(&ws->recvq) == aio) {
 		ws_read_finish(ws);
 	}
+	if (ws->closed && nni_aio_list_active(aio)) {
+		// Nothing more will ever arrive: ws_close only failed the
+		// receives that were queued at that moment.
+		nni_aio_list_remove(aio);
+		nni_aio_finish_error(aio, NNG_ECLOSED);
+	}
 	ws_start_read(ws);
 
 	nni_mtx_unlock(&ws->mtx);
